@@ -100,8 +100,8 @@ func genKey(t *rapid.T, s h.RLWESpec, allowW bool) KeySpec {
 	} else {
 		k.LevelQ = rapid.IntRange(0, maxQ).Draw(t, "keyLQ")
 	}
-	if maxP < 0 {
-		k.LevelP = -1
+	if maxP < 0 || (allowW && rapid.IntRange(0, 7).Draw(t, "keyNoP") == 0) {
+		k.LevelP = -1 // no auxiliary modulus for this key (also under parameters that have one)
 	} else if rapid.IntRange(0, 2).Draw(t, "keyLPmax") == 0 {
 		k.LevelP = maxP
 	} else {
@@ -180,6 +180,55 @@ func ringMul(a, b []*big.Int, ci bool) []*big.Int {
 	return h.NegacyclicMul(h.CIUnfold(a), h.CIUnfold(b))[:len(a)]
 }
 
+// mulQ multiplies in the ring modulo the product of qs and returns representatives of the result modulo that product.
+// Up to degree 32 it is the big-integer schoolbook product; above, a word-sized schoolbook product per RNS limb
+// (math/bits 128-bit arithmetic) followed by CRT - both independent of lattigo's NTT.
+func mulQ(a, b []*big.Int, qs []uint64, ci bool) []*big.Int {
+	if len(a) <= 32 {
+		return ringMul(a, b, ci)
+	}
+	n := len(a)
+	if ci {
+		a, b = h.CIUnfold(a), h.CIUnfold(b)
+	}
+	la, lb := h.ToRNS(a, qs), h.ToRNS(b, qs)
+	out := make([][]uint64, len(qs))
+	for i, q := range qs {
+		out[i] = negacyclicU64(la[i], lb[i], q)[:n]
+	}
+	return h.CRT(out, qs)
+}
+
+// negacyclicU64 is the schoolbook product modulo (X^n+1, q) on words; rows of zero coefficients are skipped and the
+// operand with fewer non-zero coefficients drives the outer loop.
+func negacyclicU64(a, b []uint64, q uint64) []uint64 {
+	n := len(a)
+	out := make([]uint64, n)
+	for i := 0; i < n; i++ {
+		x := a[i]
+		if x == 0 {
+			continue
+		}
+		for j := 0; j < n; j++ {
+			hi, lo := bits.Mul64(x, b[j])
+			_, p := bits.Div64(hi, lo, q)
+			k := i + j
+			if k >= n {
+				k -= n
+				if p != 0 {
+					p = q - p
+				}
+			}
+			v := out[k] + p // q < 2^62: no overflow
+			if v >= q {
+				v -= q
+			}
+			out[k] = v
+		}
+	}
+	return out
+}
+
 // ringAut applies X -> X^g.
 func ringAut(a []*big.Int, g uint64, ci bool) []*big.Int {
 	if !ci {
@@ -244,9 +293,9 @@ func phase(r *ring.Ring, ct *rlwe.Ciphertext, s []*big.Int, ci bool) []*big.Int 
 	acc := polyToBig(rl, ct.Value[0], ct.IsNTT)
 	sp := s
 	for d := 1; d < len(ct.Value); d++ {
-		acc = h.VecAdd(acc, ringMul(polyToBig(rl, ct.Value[d], ct.IsNTT), sp, ci))
+		acc = h.VecAdd(acc, mulQ(polyToBig(rl, ct.Value[d], ct.IsNTT), sp, moduli(rl), ci))
 		if d+1 < len(ct.Value) {
-			sp = ringMul(sp, s, ci)
+			sp = mulQ(sp, s, moduli(rl), ci)
 		}
 	}
 	return h.VecCenter(acc, Q)
@@ -369,8 +418,8 @@ func galois(k int64, neg bool, nthRoot uint64) uint64 {
 
 // newOut allocates an output ciphertext of degree 1; with dirty it is filled with stale uniform data first (an output
 // argument is expected to be overwritten, as every evaluator method of lattigo re-uses receivers).
-func newOut(params rlwe.Parameters, level int, dirty bool, rng *h.SplitMix) *rlwe.Ciphertext {
-	ct := rlwe.NewCiphertext(params, 1, level)
+func newOut(params rlwe.Parameters, level, degree int, dirty bool, rng *h.SplitMix) *rlwe.Ciphertext {
+	ct := rlwe.NewCiphertext(params, degree, level)
 	if dirty {
 		qs := moduli(params.RingQ().AtLevel(level))
 		for _, p := range ct.Value {
